@@ -391,10 +391,12 @@ pub trait Vec1View<T>: TIter<T> {
         T: 'a,
     {
         let len = self.len();
-        let window = window.min(len);
-        if window == 0 {
+        if len == 0 {
             return;
         }
+        // the fast paths hand out a freshly allocated buffer: never leave it unwritten
+        assert!(window > 0, "window must be greater than 0");
+        let window = window.min(len);
         // within the first window
         for i in 0..window - 1 {
             unsafe {
@@ -562,10 +564,12 @@ pub trait Vec1View<T>: TIter<T> {
         F: FnMut(Option<T>, T) -> OT,
     {
         let len = self.len();
-        let window = window.min(len);
-        if window == 0 {
+        if len == 0 {
             return;
         }
+        // the fast paths hand out a freshly allocated buffer: never leave it unwritten
+        assert!(window > 0, "window must be greater than 0");
+        let window = window.min(len);
         // within the first window
         for i in 0..window - 1 {
             unsafe {
@@ -681,10 +685,12 @@ pub trait Vec1View<T>: TIter<T> {
         F: FnMut(Option<(T, T2)>, (T, T2)) -> OT,
     {
         let len = self.len();
-        let window = window.min(len);
-        if window == 0 {
+        if len == 0 {
             return;
         }
+        // the fast paths hand out a freshly allocated buffer: never leave it unwritten
+        assert!(window > 0, "window must be greater than 0");
+        let window = window.min(len);
         // within the first window
         for i in 0..window - 1 {
             unsafe {
@@ -792,10 +798,12 @@ pub trait Vec1View<T>: TIter<T> {
         F: FnMut(Option<usize>, usize, T) -> OT,
     {
         let len = self.len();
-        let window = window.min(len);
-        if window == 0 {
+        if len == 0 {
             return;
         }
+        // the fast paths hand out a freshly allocated buffer: never leave it unwritten
+        assert!(window > 0, "window must be greater than 0");
+        let window = window.min(len);
         // within the first window
         for i in 0..window - 1 {
             unsafe {
@@ -913,10 +921,12 @@ pub trait Vec1View<T>: TIter<T> {
         F: FnMut(Option<usize>, usize, (T, T2)) -> OT,
     {
         let len = self.len();
-        let window = window.min(len);
-        if window == 0 {
+        if len == 0 {
             return;
         }
+        // the fast paths hand out a freshly allocated buffer: never leave it unwritten
+        assert!(window > 0, "window must be greater than 0");
+        let window = window.min(len);
         // within the first window
         for i in 0..window - 1 {
             unsafe {
